@@ -18,13 +18,13 @@ PROPS = {
     'C05': {'units': ['chal', 'coef', 'bind'], 'kani': [], 'exclude': r'canonical_width', 'only': {'coef': r'select_path', 'bind': r'add_poseidon[12]_perm_for_challenger(_base)?\.ensures\[(frame|shape|succeeds_when_enabled)\]'}},
     'C06': {'units': ['bind', 'pchain', 'pexec'], 'kani': [], 'only': {'pexec': r'compact_header|limb_ctl_enabled|preprocess_flags'}},
     'C17': {'units': ['cache', 'rcplug', 'backcfg', 'order'], 'kani': [], 'only': {'order': r'lane_resolution'}},
-    'C10': {'units': ['sched', 'tracegen', 'ptrace', 'vrfy', 'extkind', 'order'], 'kani': [], 'only': {'order': r'lane_resolution'}},
+    'C10': {'units': ['sched', 'tracegen', 'ptrace', 'vrfy', 'extkind', 'order', 'prep'], 'kani': [], 'only': {'order': r'lane_resolution', 'prep': r'H_a_built_circuit_is_never_refused'}},
     'C18': {'units': ['dsu', 'order', 'pphase', 'fvalid', 'iterord', 'hashord'], 'kani': []},
     'C14': {'units': ['pack', 'pack2', 'pack3', 'pubin'], 'kani': []},
     'C12': {'units': ['bits', 'chal', 'coef', 'rcair', 'prep'], 'kani': [], 'only': {'chal': r'canonical_width', 'prep': r'operand_[ac]_takes_part_in_the_witness_bus'}},
     'C15': {'units': ['shape', 'bshape', 'openin', 'hmerge', 'bprep', 'c15guard', 'pack'], 'kani': [], 'only': {'openin': r'per_matrix_shape_and_grouping|compute_single_reduced_opening|height_group', 'pack': r'OpenedValuesTargets::new'}},
     'C13': {'units': ['sym', 'symx', 'airlay'], 'kani': []},
-    'C09': {'units': ['prep', 'mult', 'pread', 'pphase', 'ptrace', 'rcair'], 'kani': [], 'exclude': r'H_the_preprocessed_row_of_a_constant_commits_its_value'},
+    'C09': {'units': ['prep', 'mult', 'pread', 'pphase', 'ptrace', 'rcair'], 'kani': [], 'exclude': r'H_the_preprocessed_row_of_a_constant_commits_its_value|H_a_built_circuit_is_never_refused'},
     'C08': {'units': ['mmcs', 'hash', 'mbind', 'vbatch', 'vbatchx', 'a4sched', 'a4path'], 'kani': []},
     'C16': {'units': ['meta', 'vrfy', 'serde16', 'manif', 'rcplug', 'alu', 'extkind', 'serdeattr'], 'kani': [], 'only': {'alu': r'AluAir::eval'}},
     'C11': {'units': ['air', 'alu', 'run19', 'tracegen', 'pchain', 'prep', 'sched'], 'kani': [], 'only': {'run19': r'execute_alu_op', 'prep': r'H_the_preprocessed_row_of_a_constant_commits_its_value', 'sched': r'true_iff_every_op_of_the_window_reads_the_same_b'}},
